@@ -13,6 +13,10 @@ class TagLoader(loaders.DefaultObjectLoader):
     owned_loads = 0
     identifies = 0
 
+    def __len__(self):
+        # the harness loaders look like registries that are (still) empty: they are falsy, and loaders all the same
+        return 0
+
     def identify_object(self, obj):
         type(self).identifies += 1
         return self.PREFIX + super().identify_object(obj)
